@@ -6,6 +6,8 @@ func init() {
 	plans["C26"] = Plan{Pkg: pkg("C26"), Steps: []Step{
 		// the acknowledgement oracle (a pure function) against hand-written histories with known verdicts
 		{Run: "TestJudgeSelfCheck", Kind: "test"},
+		// the hand-minimised cases of testdata/replay/c26 (repaired defects), in every tier
+		{Run: "TestSavedCases", Kind: "test", QTimeout: 10 * time.Minute, TTimeout: 10 * time.Minute},
 		// (b) a history costs 0.1-2 s (reconnects, a rare 1 s back-off of the client), mostly waiting
 		{Run: "TestAcks", Quick: 480, Thorough: 8000, QShards: 32, TShards: 32, QTimeout: 10 * time.Minute, TTimeout: 90 * time.Minute},
 		// (a) a stack costs 3-8 s of real time (server start, baseline delivery, reconnects), one
